@@ -221,6 +221,25 @@ def finding_matches(entry, failure):
 
 
 # ------------------------------------------------------------------------------- workers
+def _reset_phyclone_caches():
+    """phyclone's memo tables are process-wide and keyed by array *bytes* (no shape): two cases with different grid shapes in
+    one worker process can collide ((2,2) vs (1,4) grids with the same bytes).  One run of phyclone has one grid shape per
+    process, so every case starts from cold tables, like a fresh process."""
+    try:
+        import sys
+        if "phyclone" not in sys.modules:
+            return
+        from phyclone.tree import utils as tu
+        for name in ("compute_log_S", "_convolve_two_children"):
+            f = getattr(tu, name, None)
+            if f is not None and hasattr(f, "cache_clear"):
+                f.cache_clear()
+        from phyclone.utils.dev import clear_proposal_dist_caches
+        clear_proposal_dist_caches()
+    except Exception:
+        pass
+
+
 def _worker(args):
     modname, pid, tier, seed, cases, deadline = args
     mod = importlib.import_module(modname)
@@ -232,6 +251,7 @@ def _worker(args):
             skipped += 1
             continue
         try:
+            _reset_phyclone_caches()
             mod.check(ctx, case)
         except leanio.ModelError as e:
             ctx.corr_fail(case, "model rejected the request", str(e))
